@@ -6,7 +6,7 @@ from productmd.modules import Modules
 from productmd.extra_files import ExtraFiles
 from productmd.discinfo import DiscInfo
 import productmd.treeinfo
-from domains import KINDS, make_value, in_domain
+from domains import OBJECT_KINDS as KINDS, make_value, in_domain
 
 PROPERTY = "C06"
 
